@@ -456,6 +456,35 @@ int main (int argc, char** argv)
         else alpha_sweep<unsigned int> (argv[3]);
         return 0;
     }
+    if (!strcmp (argv[1], "ints_small"))
+    {
+        // all (x, y) in [-N, N]^2, y != 0: the four functions against definitional specifications in 64-bit arithmetic;
+        // prints "<mismatches> <first x> <first y>"
+        long long N = argc > 2 ? atoll (argv[2]) : 2048;
+        unsigned  nt = 16;
+        std::vector<unsigned long long> bad (nt, 0);
+        std::vector<long long> fx (nt, 0), fy (nt, 0);
+        std::vector<std::thread> th;
+        for (unsigned t = 0; t < nt; ++t)
+            th.emplace_back ([&, t] {
+                for (long long x = -N + t; x <= N; x += nt)
+                    for (long long y = -N; y <= N; ++y)
+                    {
+                        if (y == 0) continue;
+                        long long ay = y < 0 ? -y : y, ax = x < 0 ? -x : x;
+                        long long tq = (ax / ay) * (((x < 0) != (y < 0)) ? -1 : 1), tr = x - y * tq;   // truncating
+                        long long er = ((x % ay) + ay) % ay, eq = (x - er) / y;                          // Euclidean
+                        bool ok = call_divs ((int) x, (int) y) == tq && call_mods ((int) x, (int) y) == tr &&
+                                  call_divp ((int) x, (int) y) == eq && call_modp ((int) x, (int) y) == er;
+                        if (!ok && !bad[t]++) { fx[t] = x; fy[t] = y; }
+                    }
+            });
+        for (auto& t : th) t.join ();
+        unsigned long long b = 0; long long x0 = 0, y0 = 0; bool have = false;
+        for (unsigned t = 0; t < nt; ++t) { b += bad[t]; if (bad[t] && !have) { x0 = fx[t]; y0 = fy[t]; have = true; } }
+        printf ("%llu %lld %lld\n", b, x0, y0);
+        return 0;
+    }
     if (!strcmp (argv[1], "packed_sweep"))
     {
         unsigned nt = 16;
